@@ -65,7 +65,10 @@ def run(prog: Program, rep: Report, tier: str):
     p = rets[0]
     env = p.env
     # R19.2
-    cls_dict_sets = [e for pth in rets for e in pth.events if e[0] == "setitem" and e[4] == "cls_dict"]
+    def is_cls_dict(tm):
+        return tm[0] == "dict" and any(k is None and v == ("attr", CLS, "__dict__") for k, v in tm[1])
+
+    cls_dict_sets = [e for pth in rets for e in pth.events if e[0] == "setitem" and is_cls_dict(e[1])]
     slots = [e for e in cls_dict_sets if e[2] == ("const", "__slots__")]
     fields_call = ("call", ("ref", "dataclasses.fields"), (CLS,), ())
     ok_slots = bool(slots)
@@ -83,7 +86,10 @@ def run(prog: Program, rep: Report, tier: str):
         ok_slots = ok_slots and from_fields and filt and inherited_ok
     rep.check(ok_slots, "R19.2", q, f.loc, "__slots__ are the dataclass field names not already slotted by a base", "__slots__ are not `fields(cls)` names minus the union of inherited __slots__ (duplicate slots raise / fields lose their slot)", detail="slots")
     # names come from f.name of dataclasses.fields(cls)
-    fn = env.get("field_names")
+    fn = None
+    for e in p.events:
+        if e[0] == "assign" and e[2][0] == "comp" and e[2][1] == "dict" and T.contains(e[2], lambda s: s == fields_call):
+            fn = e[2]
     names_ok = fn is not None and T.contains(fn, lambda s: s == ("attr", ("elem", fields_call), "name"))
     rep.check(names_ok, "R19.2", q, f.loc, "field names are taken from dataclasses.fields(cls)", "field names are not taken from dataclasses.fields(cls)", detail="field-names")
     # flags
@@ -91,7 +97,7 @@ def run(prog: Program, rep: Report, tier: str):
         with_flag = without_flag = None
         for pth in rets:
             pol = [po for g, po in pth.guards() if g == ("param", flag)]
-            has = any(e[0] == "setitem" and e[4] == "field_names" and e[2] == ("const", key) for e in pth.events)
+            has = any(e[0] == "setitem" and e[2] == ("const", key) and not is_cls_dict(e[1]) and T.contains(e[1], lambda s: s == fields_call) for e in pth.events)
             if pol == [True]:
                 with_flag = has if with_flag is None else (with_flag and has)
             elif pol == [False]:
@@ -127,7 +133,7 @@ def run(prog: Program, rep: Report, tier: str):
     returned = all(pth.exit[1] == built.get(i) for i, pth in enumerate(rets))
     rep.check(returned, "R19.3", q, f.loc, "the rebuilt class is what wrap() returns", "wrap() does not return the rebuilt class", detail="returns")
     # R19.4
-    hook_paths = [pth for pth in rets if any(e[0] == "setitem" and e[4] == "cls_dict" and e[2] == ("const", "__setstate__") for e in pth.events)]
+    hook_paths = [pth for pth in rets if any(e[0] == "setitem" and is_cls_dict(e[1]) and e[2] == ("const", "__setstate__") for e in pth.events)]
     ok_hook = bool(hook_paths)
     for pth in hook_paths:
         gs = [g for g, pol in pth.guards() if pol]
